@@ -24,6 +24,9 @@ Reach == IF CacheShapeOK(CacheRec) THEN CacheReach(CacheRec) ELSE {}
 \* has cached the big tables of SymCodes, which would rebuild them at every reference)
 SmallNKOf(ns, ks, vs) == {nk \in (2..ns) \X (1..ks) : Vn(nk[1], nk[2]) # -1 /\ Vn(nk[1], nk[2]) <= vs}
 
+P0GridP == {1, 2, 3, 100, 4096, 16000, 16384, 30000, 32000, 32700, 32765, 32766}
+P0GridD == {0, 1, 6, 7, 8, 9, 100, 4096, 16000, 16384, 24000, 30000, 32000, 32700, 32766, 32767}
+P0MaxV == 200
 St(t, a, b, i) == [t |-> t, a |-> a, b |-> b, i |-> i]
 \* three levels so that the workers share all evaluation (Init is single-threaded): the root fans out
 \* into one state per table row / (n,k) / reachable (N,K) / parameter pair, those into indices and point blocks
@@ -31,6 +34,8 @@ Level1 == {St("tab", n, 0, 0) : n \in 0..NDim}
            \cup {St("nk", nk[1], nk[2], -1) : nk \in SmallNKOf(NSmall, KSmall, VSmall)}
            \cup {St("reach", nk[1], nk[2], 0) : nk \in Reach}
            \cup {St("pair", p[1], p[2], -1) : p \in Pairs \cup GridPairs}
+           \cup {St("p0", a, b, 0) : a \in P0GridP, b \in P0GridD}
+           \cup {St("p0v", v, 0, 0) : v \in 1..P0MaxV}
 Init == st = St("root", 0, 0, 0)
 Next == \/ /\ st.t = "root"
            /\ st' \in Level1
@@ -86,6 +91,12 @@ NoOverflow ==
      /\ st.a >= 2 /\ st.b >= 1 /\ InDims(st.a, st.b + 1)
      /\ Fits32(Vw(st.a, st.b)) /\ Fits32(Uw(st.a, st.b + 1))
      /\ UTabShapeOK(UtabRec) /\ UTableCovers(UtabRec, st.a, st.b)
+
+\* ---- the p0/decay Laplace code: run-time tables are proper inverse CDFs over the whole parameter grid (incl. the
+\*      corners 1, 32766 / 0, 7, 32767), the escape code is a prefix-free bijection for every magnitude
+LaplaceP0 ==
+  /\ st.t = "p0" => P0Domain(st.a, st.b) /\ P0TablesOK(st.a, st.b)
+  /\ st.t = "p0v" => P0PrefixFree(st.a) /\ P0PrefixFree(-st.a)
 
 \* ---- Laplace: regions tile [0, 2^15), none is empty, decode inverts encode
 LaplaceTiles ==
